@@ -17,6 +17,14 @@ theorem bind_eq_ok {α β : Type} (r : Res α) (f : α → Res β) (b : β) :
 theorem map_eq_ok {α β : Type} (r : Res α) (f : α → β) (b : β) :
     r.map f = .ok b ↔ ∃ a, r = .ok a ∧ f a = b := by
   cases r <;> simp [map]
+theorem bind_ne_panic {α β : Type} (r : Res α) (f : α → Res β) (h : r ≠ .panic)
+    (hf : ∀ a, r = .ok a → f a ≠ .panic) : r.bind f ≠ .panic := by
+  cases r with
+  | ok a => exact hf a rfl
+  | error => simp [bind]
+  | panic => exact absurd rfl h
+theorem map_ne_panic {α β : Type} (r : Res α) (f : α → β) (h : r ≠ .panic) : r.map f ≠ .panic := by
+  cases r <;> simp_all [map]
 theorem isOk_iff {α : Type} (r : Res α) : r.isOk = true ↔ ∃ a, r = .ok a := by
   cases r <;> simp [isOk]
 theorem not_isOk_map {α β : Type} (r : Res α) (f : α → β) (h : ¬ r.isOk) : ¬ (r.map f).isOk := by
